@@ -212,7 +212,14 @@ class _TrappedResponse(object):
         except Exception:
             tb = _cperror.format_exc()
             _cherrypy.log(tb, severity=40)
-            if not _cherrypy.request.show_tracebacks:
+            show_tracebacks = _cherrypy.request.show_tracebacks
+            if _cherrypy.request.app is None:
+                # The request has been released already (and cherrypy.request
+                # is the default object): use what it left behind.
+                show_tracebacks = getattr(
+                    _cherrypy.serving, 'released_show_tracebacks',
+                    show_tracebacks)
+            if not show_tracebacks:
                 tb = ''
             s, h, b = _cperror.bare_error(tb)
             if True:
